@@ -196,8 +196,9 @@ class AccountingSpec(BfsSpec):
         check_invariant(st, engine.S)
 
     def canon(self, st):
-        return (self.meter, tuple((e[1], "r" if e[2] is None else len(e[2].notes)) for e in st.bar.bar),
-                float(st.bar.current_beat).hex())
+        # the whole instance state of the real Bar (every attribute, floats bit-exact): whatever
+        # future behaviour can depend on is in there, including state a changed library adds
+        return engine.deep_key(st.bar)
 
 
 CONTENT_FORMS = ["str", "note", "list", "nc", "rest"]
@@ -299,8 +300,7 @@ class ContentSpec(BfsSpec):
         check_invariant(st, engine.S)
 
     def canon(self, st):
-        return (self.meter, tuple((e[1], None if e[2] is None else tuple((n.name, n.octave) for n in e[2].notes))
-                                  for e in st.bar.bar), float(st.bar.current_beat).hex())
+        return engine.deep_key(st.bar)
 
 
 NAT = {"C": 0, "D": 2, "E": 4, "F": 5, "G": 7, "A": 9, "B": 11}
